@@ -121,7 +121,14 @@ fn main() {
             let all_sources: Vec<Vec<Project>> = cases.iter().map(sources).collect();
             let tasks: Vec<(usize, usize)> =
                 all_sources.iter().enumerate().flat_map(|(i, s)| (0..s.len()).map(move |j| (i, j))).collect();
-            let obs: Vec<Value> = vharness::pool::par_map(&tasks, |_, &(i, j)| observe(&all_sources[i][j]));
+            // (the always-accepting stub replaces the observation of every planted use: nothing to compile there)
+            let obs: Vec<Value> = vharness::pool::par_map(&tasks, |_, &(i, j)| {
+                if stub == "accept" && cases[i]["t"] == "oos" {
+                    json!({"class": "ok", "digest": "stub", "bytes": 1, "stage": "none", "detail": "stub"})
+                } else {
+                    observe(&all_sources[i][j])
+                }
+            });
             let mut per_case: Vec<Vec<Value>> = cases.iter().map(|_| Vec::new()).collect();
             for (&(i, _), o) in tasks.iter().zip(obs.into_iter()) {
                 per_case[i].push(o);
